@@ -5,6 +5,7 @@ from __future__ import annotations
 from mc import alphabets as A
 from mc import refsched, seqx, snapshot
 from mc.evidence import Result
+from mc.monitors import physical_fall
 from mc.refsched import adm, pending
 from mc.worlds import corner
 
@@ -84,6 +85,15 @@ def protocols(ctx):
                         ctx.act["conflict_delay_required"] += 1
                     if ps.ti < lo:
                         out.append((f"C03:conflict:{proto}", f"{name}: pulse at {ps.ti} but {oname} pulse {s.brief()} ramps down until {lo}"))
+                    # the same bound from the scheduled samples alone (documented Gaussian filter), without Pulse.fall_time
+                    if not s.in_eom and not s.cur_eom:
+                        lo2 = s.tf + physical_fall(s, ctx.world.params(och.ch_id)["bw"])
+                        ctx.act["physical_fall_compared"] += 1
+                        if lo2 > s.tf + s.fall_std:
+                            ctx.act["physical_fall_above_library_fall"] += 1
+                        if ps.ti < lo2:
+                            out.append((f"C03:conflict-with-modulated-output:{proto}", f"{name}: pulse at {ps.ti} but the modulated output of {oname} "
+                                        f"pulse {s.brief()} (amplitude {s.pulse.amp_cls}, detuning {s.pulse.det_cls}) is still present until {lo2}"))
                     break
     else:  # no-delay: exactly at the channel's end or the barrier, whichever is later
         p = ctx.world.params(pre.channels[name].ch_id)
@@ -134,6 +144,13 @@ def align(ctx):
     for n in names:
         e0, e1 = pre.channels[n].end, post.channels[n].end
         p = ctx.world.params(pre.channels[n].ch_id)
+        if at_rest:
+            last = next((s for s in reversed(pre.channels[n].slots) if s.kind == "pulse" and not s.pulse.detuned_delay), None)
+            if last is not None and not last.in_eom and not last.cur_eom:
+                rest = last.tf + physical_fall(last, p["bw"])
+                if any(post.channels[m].end < rest for m in names):
+                    out.append(("C03:align-at-rest-before-the-output-has-ended", f"{n}: modulated output of {last.brief()} present until {rest}, "
+                                f"aligned channels end at {[post.channels[m].end for m in names]}"))
         exp = e0 if T <= e0 else e0 + adm(T - e0, p)
         if e1 < T:
             out.append((f"C03:align-ends-early:at_rest={at_rest}", f"{n}: ends at {e1}, latest end {'with fall time ' if at_rest else ''}is {T}"))
@@ -164,6 +181,10 @@ def plan(tier, seed):
         (corner("real", prefix=A.GL, max_dur=100, retarget=220, name="real-max-duration-below-waits"), tG, 2),
         (corner("unit", prefix=A.GR, over={"rydberg_local": dict(clock=4, min_dur=8)}, name="unit-samebasis-clock-1-vs-4"),
          A.timing(l="r", basis_l="ground-rydberg", eom=False), 3),
+        # a minimum duration that is NOT a multiple of the clock (clock 4, minimum 10): automatic waits at or below the minimum
+        # (retarget interval 8; an 8 ns cross-channel wait) must still land on the clock grid
+        (corner("unit", prefix=A.GR, over={"rydberg_local": dict(clock=4, min_dur=10, retarget=8)}, name="unit-min-duration-off-the-clock-grid"),
+         A.timing(l="r", basis_l="ground-rydberg", eom=False) + [("add", ["c", 100, 1.0, 0.0, 0.0], "g"), ("delay", 92, "r")], 3),
         (corner("unit8", prefix=A.GL, bw=30, eom=dict(mod_bandwidth=8), name="unit8-eom-slower-than-channel"), tG, 2),
         (corner("awk", prefix=A.DEEP_GL_AFTER, name="awk-deep-root-after-eom"), tG, 2),
     ]
@@ -180,9 +201,11 @@ def run(tier, seed):
                    "re-seeded from the implementation's pre-state and its prediction compared with the post-state")
     res.coverage = cov
     res.required_activations = ["refsched_compared", "conflict_delay_required", "estimate_nonzero", "align_with_pending_fall",
-                                "protocol:no-delay", "protocol:wait-for-all", "protocol:min-delay"]
+                                "protocol:no-delay", "protocol:wait-for-all", "protocol:min-delay", "physical_fall_compared"]
     res.assumptions = [
-        "fall times of already scheduled pulses are read from Pulse.fall_time (decided by C14)",
+        "RefSched's exact start times use Pulse.fall_time of the scheduled pulses (decided by C14); independently of it, min-delay / "
+        "wait-for-all starts and at-rest alignments are compared with a lower bound computed from the scheduled samples alone "
+        "(documented Gaussian filter, output below max(0.01, 0.6 % of peak); standard mode only)",
         "zero-amplitude detuned delays of EOM blocks on other channels may or may not count as pulses (both accepted)",
         "no-delay: 'exactly at the barrier' is read as the least admissible delay reaching the barrier",
     ]
